@@ -480,6 +480,18 @@ func c04Run(w *W) {
 			if _, ok := p.Take(); ok {
 				w.Op("peer %s reads one message", p.Name)
 			}
+		case kind == 9 && c.c == nil && len(b.ctxs) < nctx+2:
+			// a context opened in the middle of the history (requests of the
+			// socket and of the other contexts outstanding): it has nothing to
+			// do with their requests and retransmissions, now or when it is used
+			nc, err := b.s.OpenContext()
+			if err != nil {
+				w.Failf("HARNESS/ctx", "%v", err)
+				return
+			}
+			b.ctxs = append(b.ctxs, &reqCtx{idx: len(b.ctxs), c: nc, s: b.s, R: R})
+			w.Op("ctx%d opened", len(b.ctxs)-1)
+			w.Probe("context-opened-mid-history")
 		case kind == 9: // close a context
 			if c.c == nil || c.closed {
 				continue
